@@ -4,7 +4,6 @@ import (
 	"context"
 
 	"github.com/WuKongIM/WuKongIM/internal/zzsym"
-	"github.com/WuKongIM/WuKongIM/pkg/db/internal/engine"
 	metadb "github.com/WuKongIM/WuKongIM/pkg/db/meta"
 	"github.com/WuKongIM/WuKongIM/pkg/slot/multiraft"
 )
@@ -16,13 +15,23 @@ func c13Small(name string) int64 { return int64(zzsym.U8(name) & 0x3f) }
 
 // c13Command builds one metadata command of a symbolically chosen kind with symbolic (small)
 // field values over a tiny id space, so that commands in one log can touch the same rows.
-func c13Command(index uint64) multiraft.Command {
+func c13Command(index uint64) multiraft.Command { return c13CommandOf(index, 6) }
+
+// c13CommandOf restricts the command kinds to the first `kinds` cases when kinds < 6 is given as a
+// negative selector: kinds == -3 selects the three subscriber/channel commands that share counters.
+func c13CommandOf(index uint64, kinds int) multiraft.Command {
 	uid := "u1"
 	if zzsym.Choice("uid", 2) == 1 {
 		uid = "u2"
 	}
 	var data []byte
-	switch zzsym.Choice("kind", 6) {
+	kind := 0
+	if kinds == -3 {
+		kind = 1 + zzsym.Choice("kind", 3)
+	} else {
+		kind = zzsym.Choice("kind", kinds)
+	}
+	switch kind {
 	case 0:
 		data = EncodeUpsertUserCommand(metadb.User{UID: uid, Token: "t", DeviceFlag: c13Small("deviceflag"), DeviceLevel: c13Small("devicelevel")})
 	case 1:
@@ -40,17 +49,17 @@ func c13Command(index uint64) multiraft.Command {
 	return multiraft.Command{SlotID: 1, HashSlot: 1, Index: index, Term: 1, Data: data}
 }
 
-func c13Machine(path string) (multiraft.StateMachine, *metadb.DB) {
+func c13Machine(path string) (*stateMachine, *metadb.DB) {
 	db, err := metadb.Open(path)
 	zzsym.Assume(err == nil)
 	sm, err := NewStateMachineWithHashSlots(db, 1, []uint16{1})
 	zzsym.Assume(err == nil)
-	return sm, db
+	return sm.(*stateMachine), db
 }
 
 func c13SameStores(a, b string) bool {
-	ka, va := engine.ZZDump(a)
-	kb, vb := engine.ZZDump(b)
+	ka, va := metadb.ZZC13Dump(a)
+	kb, vb := metadb.ZZC13Dump(b)
 	if len(ka) != len(kb) {
 		return false
 	}
@@ -88,15 +97,25 @@ func c13SameResults(a, b [][]byte) bool {
 // Harness_C13_BatchTransparency: the same committed log applied as one batch, or split at any
 // point into two batches (which includes one command at a time for n = 2), yields identical
 // results and byte-identical stores.
-func Harness_C13_BatchTransparency() {
+func Harness_C13_BatchTransparency() { c13BatchTransparency(false) }
+
+// Harness_C13_BatchTransparencySubscribers: logs of three commands over the channel / add / remove
+// subscriber commands, whose in-batch overlays (subscriber rows, counters) interact.
+func Harness_C13_BatchTransparencySubscribers() { c13BatchTransparency(true) }
+
+func c13BatchTransparency(subscribers bool) {
 	n := 2
-	if zzsym.Thorough() {
+	if zzsym.Thorough() || subscribers {
 		n = 3
 	}
-	engine.ZZResetStores()
+	metadb.ZZC13ResetStores()
 	cmds := make([]multiraft.Command, n)
 	for i := range cmds {
-		cmds[i] = c13Command(uint64(i + 1))
+		if subscribers {
+			cmds[i] = c13CommandOf(uint64(i+1), -3)
+		} else {
+			cmds[i] = c13Command(uint64(i + 1))
+		}
 	}
 	ctx := context.Background()
 	smA, _ := c13Machine("c13-a")
@@ -126,7 +145,7 @@ func Harness_C13_BatchTransparency() {
 // (fresh state machine on the same store) and then the rest converges to the same store as
 // applying the log once.
 func Harness_C13_ReplayAfterRestart() {
-	engine.ZZResetStores()
+	metadb.ZZC13ResetStores()
 	cmds := []multiraft.Command{c13Command(1), c13Command(2)}
 	ctx := context.Background()
 	smA, _ := c13Machine("c13-a")
@@ -134,9 +153,7 @@ func Harness_C13_ReplayAfterRestart() {
 	smB, dbB := c13Machine("c13-b")
 	_, errB := smB.ApplyBatch(ctx, cmds[:1])
 	zzsym.Assume(errA == nil && errB == nil)
-	applied, err := smB.(interface {
-		DurableAppliedIndex(context.Context) (uint64, error)
-	}).DurableAppliedIndex(ctx)
+	applied, err := smB.DurableAppliedIndex(ctx)
 	zzsym.Assert(err == nil && applied == 1, "durable applied index does not name the last applied command")
 	// restart: a new state machine over the same store resumes after the durable index
 	zzsym.Assume(dbB.Close() == nil)
@@ -150,18 +167,18 @@ func Harness_C13_ReplayAfterRestart() {
 // Harness_C13_UnownedHashSlotRefused: a command for a hash slot the slot does not own is refused
 // and leaves the store untouched.
 func Harness_C13_UnownedHashSlotRefused() {
-	engine.ZZResetStores()
+	metadb.ZZC13ResetStores()
 	ctx := context.Background()
 	sm, _ := c13Machine("c13-a")
 	_, err0 := sm.ApplyBatch(ctx, []multiraft.Command{c13Command(1)})
 	zzsym.Assume(err0 == nil)
-	kBefore, vBefore := engine.ZZDump("c13-a")
+	kBefore, vBefore := metadb.ZZC13Dump("c13-a")
 	cmd := c13Command(2)
 	cmd.HashSlot = 2 + uint16(zzsym.U8("foreignslot")&7)
 	_, err := sm.ApplyBatch(ctx, []multiraft.Command{cmd})
 	zzsym.Reach("foreign-applied")
 	zzsym.Assert(err != nil, "a command for a hash slot the slot does not own was applied")
-	kAfter, vAfter := engine.ZZDump("c13-a")
+	kAfter, vAfter := metadb.ZZC13Dump("c13-a")
 	same := len(kBefore) == len(kAfter)
 	if same {
 		for i := range kBefore {
